@@ -52,7 +52,7 @@ def cases(tier, rng):
         yield {"k": 1703, "args": [t, [nr], [nc], [rng.randint(-2, nr * nc + 1)]], "call": {"api": api}, "group": "idx_to_coords"}
         yield {"k": 1704, "args": [t, [nr], [nc]], "call": {"api": api}, "group": "bounds"}
     for i in range(60 if tier == "quick" else 600):
-        yield {"k": 1700, "args": [[i]], "call": {"what": ["dist_proj", "dist_geo", "area", "selfcheck"][i % 4], "seed": rng.randrange(10**9)}, "group": "formulas"}
+        yield {"k": 1700, "args": [[i]], "call": {"what": ["dist_proj", "dist_geo", "area", "selfcheck", "distnc"][i % 5], "seed": rng.randrange(10**9)}, "group": "formulas"}
 
 
 def _affine(t):
@@ -160,6 +160,30 @@ def _formulas(call):
                         sph = math.hypot(math.radians(abs(yres)) * 6371e3 * abs(dr), math.radians(abs(xres)) * 6371e3 * math.cos(math.radians(lat)) * abs(dc))
                         if not _close(d, exp, 1e-9) or d != g.distance(j, i, nc, True, tr) or abs(d - sph) > 0.01 * sph:
                             bad.append(f"geographic distance({i},{j}) ncol={nc} tr={tuple(tr)[:6]}: {d} expected {exp} (sphere {sph})")
+    elif what == "distnc":
+        # path length to the outlet on the object = sum of the step lengths along the flow path, also on rasters of one
+        # or two columns (where linear-index offsets are ambiguous) and on geographic grids (round-3 seed)
+        import nets
+        nr, nc = rng.choice([(1, 4), (4, 1), (3, 2), (5, 2), (2, 3), (4, 3), (6, 1)])
+        flwv = nets.random_d8_raster(rng, nr, nc, p_nodata=rng.choice([0, 0.15]))
+        ds = nets.d8_decode(flwv, nr, nc)
+        if nets.pits(ds):
+            ll = rng.random() < 0.4
+            xres = rng.choice([3.0, 0.5, 2.0]); yres = rng.choice([-4.0, -0.25, 1.0])
+            tr = Affine(xres, 0.0, 5.0, 0.0, yres, 30.0)
+            obj = pyflwdir.from_array(np.array(flwv, dtype=np.uint8).reshape(nr, nc), ftype="d8", transform=tr, latlon=ll)
+            got = np.asarray(obj.distnc).ravel()
+            got2 = np.asarray(obj.stream_distance(unit="m")).ravel()
+            for i in range(nr * nc):
+                if ds[i] < 0:
+                    continue
+                d, j = 0.0, i
+                while ds[j] != j:
+                    d += float(g.distance(j, ds[j], nc, ll, tr))
+                    j = ds[j]
+                if not _close(float(got[i]), d, 1e-5) or not _close(float(got2[i]), d, 1e-5):
+                    bad.append(f"distnc / stream_distance('m') of cell {i} on a {nr}x{nc} raster (latlon={ll}, res {xres} x {yres}): {got[i]} / {got2[i]}, the steps add up to {d}")
+                    break
     elif what == "area":
         nr, nc = rng.choice([(1, 4), (4, 1), (3, 3), (2, 5), (1, 2)])
         xres = rng.choice([1.0, 2.0, 0.5, -2.0]); yres = rng.choice([-1.0, -5.0, 0.5, 3.0])
@@ -178,6 +202,11 @@ def _formulas(call):
         ua = flw.upstream_area("km2")
         if not np.all(np.isfinite(ua)) or not np.allclose(ua, np.asarray(A) / 1e6, rtol=1e-6):
             bad.append(f"upstream_area('km2') on all-pit {nr}x{nc} geographic raster: {ua.ravel()[:4]}")
+        # unit conversions are not applied to the object's own cell areas: asking again gives the same, and the area
+        # grid is still in m2
+        ua2, uh = flw.upstream_area("km2"), flw.upstream_area("ha")
+        if not np.array_equal(ua, ua2) or not np.allclose(uh, np.asarray(A) / 1e4, rtol=1e-6) or not np.array_equal(flw.area, A):
+            bad.append(f"repeated upstream_area with units on a {nr}x{nc} geographic raster: {ua2.ravel()[:3]} {uh.ravel()[:3]} area {flw.area.ravel()[:3]}")
         # the object's areas / path lengths follow the CURRENT georeference, also after an earlier query on a memoising
         # object and a set_transform that changes only the latlon flag or only the affine (round-2 seed)
         if nr * nc > 1:
